@@ -407,6 +407,15 @@ def gen_design(seed, did, decorate=None):
     rng = random.Random(seed)
     g = Gen(rng)
     used = []
+    cc = rng.random()
+    if cc < 0.15:
+        g.emit("clockcfg rst=async")
+    elif cc < 0.25:
+        g.emit("clockcfg rst=none")
+    elif cc < 0.35:
+        g.emit("clockcfg rst=sync act=low")
+    elif cc < 0.40:
+        g.emit("clockcfg rst=async act=low")
     # a couple of inputs first so templates have something to chew on
     g.new_in(rng.choice([1, 2])); g.new_inb()
     nt = rng.choice([2, 3, 3, 4, 5])
